@@ -31,6 +31,7 @@ from ..errors import InvalidRangeName
 from ..cell import Cell, RangesAssembler, Ref, CellWrapper, InvRangesAssembler
 from ..tokens.operand import XlError, _re_sheet_id, _re_build_id
 from ..functions.text import HexValue
+from ..functions import COMPILING
 
 log = logging.getLogger(__name__)
 BOOK = sh.Token('Book')
@@ -593,6 +594,21 @@ class ExcelModel:
         }
 
         res = dsp()
+        # Volatile cells (NOW, RAND, ...) and their dependants are not frozen.
+        stack = [
+            k for k, node in dsp.function_nodes.items() if COMPILING in getattr(
+                getattr(getattr(node['function'], 'func', None), 'dsp', None),
+                'nodes', ()
+            )
+        ]
+        if stack:
+            succ, impure = dsp.dmap.succ, set()
+            while stack:
+                k = stack.pop()
+                if k not in impure:
+                    impure.add(k)
+                    stack.extend(succ[k])
+            res = {k: v for k, v in res.items() if k not in impure}
 
         dsp = dsp.get_sub_dsp_from_workflow(
             outputs, graph=dsp.dmap, reverse=True, blockers=res,
